@@ -3,6 +3,11 @@ C06 – re-statements of the function-outline ties of source files this property
 them (bin/mk_dependency_ties.py; hand-run): a source change there is reported for C06 as well.
 -/
 import Uniflow.Props.C07TieFn1
+import Uniflow.Props.C05TieLayer
+import Uniflow.Props.C08TieLayer
 
 theorem C06.dep_C07_symbol_loadhook_as_modelled : type_of% C07.src_symbol_loadhook_as_modelled := C07.src_symbol_loadhook_as_modelled
 theorem C06.dep_C07_symbol_unloadhook_as_modelled : type_of% C07.src_symbol_unloadhook_as_modelled := C07.src_symbol_unloadhook_as_modelled
+theorem C06.dep_C05_port_closehook_as_modelled : type_of% C05.src_port_closehook_as_modelled := C05.src_port_closehook_as_modelled
+theorem C06.dep_C08_node_proxy_as_modelled : type_of% C08.src_node_proxy_as_modelled := C08.src_node_proxy_as_modelled
+theorem C06.dep_C08_symbol_cluster_as_modelled : type_of% C08.src_symbol_cluster_as_modelled := C08.src_symbol_cluster_as_modelled
